@@ -16,8 +16,8 @@ JAR = "/opt/veriftools/tla/tla2tools.jar:/opt/veriftools/tla/CommunityModules-de
 
 # name: (ruleset, weak, prefix, maxview, equivviews, kind, dumpEvery)
 JOBS = {}
-def job(rs, weak, prefix, maxview, equiv="{}", dump=0):
-    JOBS[f"{rs}-{weak}-p{prefix}-v{maxview}" + ("-eq" if equiv != "{}" else "")] = (rs, weak, prefix, maxview, equiv, dump)
+def job(rs, weak, prefix, maxview, equiv="{}", dump=0, group=False):
+    JOBS[f"{rs}-{weak}-p{prefix}-v{maxview}" + ("-eq" if equiv != "{}" else "") + ("-g" if group else "")] = (rs, weak, prefix, maxview, equiv, dump, group)
 for rs in ("chained", "simple"):
     job(rs, "nolock", 3, 6)          # (shorter prefixes leave no room for two conflicting three-chains: no script)
     job(rs, "regress", 4, 8)
@@ -26,6 +26,11 @@ for rs in ("chained", "simple"):
     job(rs, "commit2", 3, 6)
     job(rs, "nodirect", 2, 6)
     job(rs, "nodirect", 3, 7)
+    # longer attacks, searched with group votes only (a block gets a certifying set of votes at once or none)
+    job(rs, "gaplow", 2, 7, group=True)
+    job(rs, "gaplow", 2, 8, group=True)
+    job(rs, "regress", 2, 8, group=True)
+    job(rs, "nolock", 0, 6, group=True)
     # ("gaplow": only the link between the committed block and its child may skip views -- no Agreement violation exists within
     #  four adversarial views after the prefix (1.9 M states explored); the known attack needs seven)
     job(rs, "gaphigh", 2, 6)
@@ -36,14 +41,14 @@ for rs in ("chained", "simple"):
     job(rs, "none", 3, 6, "{4}", 40)
 
 def run_job(name, timeout=1500, workers=5):
-    rs, weak, prefix, maxview, equiv, dump = JOBS[name]
+    rs, weak, prefix, maxview, equiv, dump, group = JOBS[name]
     d = tempfile.mkdtemp(prefix="atk-", dir=os.path.join(ROOT, ".scratch") if os.path.isdir(os.path.join(ROOT, ".scratch")) else None)
     try:
         shutil.copy(os.path.join(SPEC, "HotStuffAbs.tla"), d)
         spec, inv = ("SpecOrdered", "DumpSample") if weak == "none" else ("SpecAttack", "ExploreWhileSafe")
         with open(os.path.join(d, "job.cfg"), "w") as f:
             f.write(f'CONSTANTS N = 4  Byz = {{4}}  MaxView = {maxview}  MaxBlocksPerView = 2  Ruleset = "{rs}"  Weak = "{weak}"'
-                    f'  Prefix = {prefix}  EquivViews = {equiv}  DumpEvery = {dump}\nSPECIFICATION {spec}\nINVARIANT {inv}\n'
+                    f'  Prefix = {prefix}  EquivViews = {equiv}  DumpEvery = {dump}  GroupVotes = {"TRUE" if group else "FALSE"}\nSPECIFICATION {spec}\nINVARIANT {inv}\n'
                     + ("INVARIANT Agreement\nINVARIANT OneVotePerView\n" if weak == "none" else "") + "VIEW view\n")
         p = subprocess.run(["timeout", str(timeout), "java", "-XX:+UseParallelGC", "-cp", JAR, "tlc2.TLC", "-workers", str(workers), "-deadlock",
                             "-metadir", os.path.join(d, "meta"), "-config", "job.cfg", "HotStuffAbs.tla"], cwd=d, capture_output=True, text=True)
